@@ -464,3 +464,186 @@ def bracket_styles_agree(ctx):
 
 def _idents(node):
     return []
+
+
+def canonical_path_is_canonical(ctx):
+    """X-CANON: util::canonical_path answers with the path the operating system resolved (fs::canonicalize): the visited-directory
+    set, the nesting depth and the ignore filters compare its results as text, so a shortcut that returns the path as given
+    (absolute but through a symbolic link, or with another spelling) makes one directory look like two"""
+    name = "util::canonical_path"
+    h = ctx.anchor_hir(name)
+    locs = Locals(h)
+    n = 0
+    canon = [c for c in walk_exprs(h) if c["k"] == "Call" and str(c.get("callee", "")).endswith("fs::canonicalize")]
+    if len(canon) != 1:
+        ctx.violation("canonical/anchor", ctx.where(name), "canonical_path must call fs::canonicalize exactly once (found %d calls)" % len(canon))
+        return
+    for leaf, _holder in leaf_results(h):
+        e = peel(leaf, methods=False)
+        if not (e["k"] == "Call" and e.get("ctor") and short(e["callee"], 1) == "Ok"):
+            continue
+        n += 1
+        arg = e["args"][0]
+        # the text comes from the resolved path: format_absolute_path(<payload of canonicalize(..) = Ok(path)>) or that payload itself
+        inner = peel(arg, methods=False)
+        while inner["k"] == "Call" and not inner.get("ctor") and inner["args"] and str(inner.get("callee", "")).endswith("format_absolute_path"):
+            inner = peel(inner["args"][0], methods=False)
+        while inner["k"] == "MCall" and inner["m"] in ("to_string_lossy", "to_string", "display", "as_path", "to_path_buf", "into_owned", "clone"):
+            inner = peel(inner["recv"], methods=False)
+        src = None
+        if inner["k"] == "Path" and inner.get("rk") == "Local":
+            src = locs.payload_defs.get(inner["res"]) or locs.defs.get(inner["res"])
+        resolved = src is not None and any(y is canon[0] for y in walk_exprs(src))
+        gs = guards_of(h, leaf) or []
+        windows_fallback = any("Incorrect function" in guard_text(g) for g in gs if g[0] in ("if", "match"))
+        ok = resolved or windows_fallback
+        ctx.obligation(ok)
+        if not ok:
+            ctx.violation("canonical/not-resolved", ctx.where(name, leaf),
+                          "canonical_path returns `%s` without resolving it through fs::canonicalize: a path given through a symbolic link (or spelled differently) "
+                          "is then not the canonical one, and the same directory is visited, measured and filtered under two names" % render(arg)[:80])
+    # combinator form: canonicalize(p).map(|path| format_absolute_path(&path)).or_else(|err| ..): the chain is rooted in the
+    # resolution; an Ok(..) built inside a closure of the chain is the reviewed fallback only under the "Incorrect function." test
+    tail = peel(h.get("expr", h), methods=False) if h["k"] == "Block" else peel(h, methods=False)
+    r = tail
+    chain_ok = False
+    while r["k"] == "MCall":
+        r = peel(r["recv"], methods=False)
+    if tail["k"] == "MCall" and r is canon[0]:
+        chain_ok = True
+        n += 1
+        for c in walk_exprs(tail):
+            if c["k"] == "Closure":
+                for e in walk_exprs(c["body"]):
+                    if e["k"] == "Call" and e.get("ctor") and short(e["callee"], 1) == "Ok":
+                        inner_ids = {y.get("res") for y in walk_exprs(e) if y["k"] == "Path" and y.get("rk") == "Local"}
+                        own = set(pat_binders(c["params"][0])) if c.get("params") else set()
+                        from_resolution = bool(inner_ids & own) and "or_else" not in render(path_to(tail, c)[-1][0])[:0]
+                        gs = guards_of(c["body"], e) or []
+                        fallback = any("Incorrect function" in guard_text(g) for g in gs if g[0] in ("if", "match"))
+                        n += 1
+                        okc = fallback or from_resolution
+                        ctx.obligation(okc)
+                        if not okc:
+                            ctx.violation("canonical/not-resolved", ctx.where(name, e), "canonical_path builds `%s` outside the resolution by fs::canonicalize" % render(e)[:80])
+    ctx.covered("Ok results of util::canonical_path traced to fs::canonicalize", n, distinct_keys=["results:%d" % n])
+    ctx.floor(n, 1, "Ok results of canonical_path", name)
+
+
+def lexer_split_invariance(ctx):
+    """C11-R7: a query passed as several shell words is lexed like the same words joined by single blanks.  The lexer
+    (Lexer::new + next_lexem) is read by the finite interpreter on a small family of inputs, each once as one argument and
+    once split at every blank - also at blanks inside quoted literals of the three styles -, and the two lexem sequences
+    are compared with each other (no table of expected lexems is involved)"""
+    import interp
+    import itertools
+    new, nx = "lexer::Lexer::new", "lexer::Lexer::next_lexem"
+    nh, xh = ctx.anchor_hir(new), ctx.anchor_hir(nx)
+    nps, xps = ctx.prog.fns[new]["params"], ctx.prog.fns[nx]["params"]
+
+    def lex(parts):
+        L = interp.Interp(prog=ctx.prog).run(nh, {nps[0]["id"]: list(parts)})
+        out = []
+        for _ in range(40):
+            r = interp.Interp(prog=ctx.prog, max_steps=200000).run(xh, {xps[0]["id"]: L})
+            if r == interp.NONE:
+                return out
+            out.append(r.args[0] if isinstance(r, interp.V) and r.args else r)
+        raise interp.Undecided("the lexer does not come to an end")
+    queries = ["name, size from /tmp/a b where name = 'my notes.txt'",
+               'select name from . where name like "a b  c" and size gt 3',
+               "name from . where name eq `x y` or {size + 1 gt 2}",
+               "count(*), max(size) from /x where ext = 'r s' group by ext order by 1 desc limit 3"]
+    n = 0
+
+    def renderings(q):
+        """shell-word renderings of q that fselect documents as equivalent: the word right after FROM is taken whole as a search
+        root (a path may contain blanks), so from FROM on every blank is a cut, except that a quoted literal may stay one word;
+        before FROM any single blank may be left uncut"""
+        words = q.split(" ")
+        fi = next(i for i, w in enumerate(words) if w.lower() == "from")
+        out = [list(words)]
+        for k in range(1, fi):
+            out.append(words[:k - 1] + [" ".join(words[k - 1:k + 1])] + words[k + 1:])
+        # quoted literals kept as one shell word
+        merged, cur, quote = [], None, None
+        for w in words:
+            if cur is None and w[:1] in "'\"`" and not (len(w) > 1 and w.endswith(w[0])):
+                cur, quote = [w], w[0]
+            elif cur is not None:
+                cur.append(w)
+                if w.endswith(quote):
+                    merged.append(" ".join(cur))
+                    cur = None
+            else:
+                merged.append(w)
+        if cur is None and merged != words:
+            out.append(merged)
+        return out
+    for q in queries:
+        try:
+            whole = lex([q])
+            for parts in renderings(q):
+                got = lex(parts)
+                n += 1
+                ok = got == whole
+                ctx.obligation(ok)
+                if not ok:
+                    ctx.violation("lexer/split/%d" % queries.index(q), ctx.where(nx),
+                                  "passed as the shell words %s, the query `%s` is lexed as %s instead of %s: the same query must mean the same "
+                                  "whether it is passed as one argument or as several" % (parts, q, got, whole))
+                    break
+        except interp.Undecided as e:
+            ctx.obligation(False)
+            ctx.violation("lexer/split/unreadable", ctx.where(nx), "cannot evaluate the lexer on `%s`: %s" % (q, e))
+            break
+    ctx.covered("one-argument vs. split renderings of 4 queries lexed by interpretation and compared", n, distinct_keys=["split-points:%d" % n], exhaustive=False)
+    ctx.floor(n, 10, "split renderings compared", nx)
+
+
+def user_config_wins(ctx):
+    """X-CONFIG: wherever a setting is read from both the user's configuration and the built-in default configuration, the
+    user's value wins and the default is only the fallback: every expression of the searcher that mentions `self.config.F`
+    and `self.default_config.F` for the same F is evaluated for (user set / not set)"""
+    import interp
+    n = 0
+    for name in sorted(ctx.prog.fns):
+        if not name.startswith("searcher::") or "{closure" in name:
+            continue
+        h = ctx.prog.hir(name)
+        if h is None:
+            continue
+        fields_u = {}
+        fields_d = {}
+        for x in walk_exprs(h):
+            if x["k"] == "Field" and x["e"]["k"] == "Field" and render(x["e"]) in ("self.config", "self.default_config"):
+                (fields_u if render(x["e"]) == "self.config" else fields_d).setdefault(x["name"], []).append(x)
+        for f in sorted(set(fields_u) & set(fields_d)):
+            # the smallest expression containing a read of both
+            best = None
+            for x in walk_exprs(h):
+                if x["k"] in ("MCall", "Call", "If", "Match", "Block") and any(y is fields_u[f][0] for y in walk_exprs(x)) and any(y is fields_d[f][0] for y in walk_exprs(x)):
+                    if best is None or len(list(walk_exprs(x))) < len(list(walk_exprs(best))):
+                        best = x
+            if best is None:
+                continue
+            ids = {y["res"] for y in walk_exprs(best) if y["k"] == "Path" and y.get("rk") == "Local"}
+            res = {}
+            try:
+                for user in (interp.some("<user>"), interp.NONE):
+                    selfv = {"config": {f: user}, "default_config": {f: interp.some("<default>")}}
+                    v = interp.Interp(prog=ctx.prog).ev(best, {i: selfv for i in ids})
+                    while isinstance(v, interp.V) and v.name == "Option::Some":
+                        v = v.args[0]
+                    res[user == interp.NONE] = v
+            except interp.Undecided:
+                continue
+            n += 1
+            ok = res.get(False) == "<user>" and res.get(True) == "<default>"
+            ctx.obligation(ok)
+            if not ok:
+                ctx.violation("config-precedence/%s/%s" % (short(name, 1), f), ctx.where(name, best),
+                              "the setting `%s` must be the user's value when the user's configuration has one and the built-in default otherwise; "
+                              "`%s` gives %r with a user value and %r without" % (f, render(best)[:90], res.get(False), res.get(True)))
+    ctx.covered("settings read from the user configuration with the default configuration as fallback (evaluated both ways)", n, distinct_keys=["settings:%d" % n])
+    ctx.floor(n, 8, "settings read from both configurations", "searcher")
